@@ -93,7 +93,15 @@ def load_byte(st, o, symkey, c):
     for reg in getattr_regions(o):
         rk, rn, src = reg
         if may_overlap(st, (symkey, c), 1, rk, rn):
-            return ('sym', st.fresh('region:%s' % o.id), 0, 255)
+            # unknown but initialised; the same location read twice is the same value unless a store that may
+            # overlap it happened in between
+            gen = 0
+            if o.epoch:
+                cache = {}
+                for ek, ew in o.epoch:
+                    if may_overlap(st, (symkey, c), 1, ek, ew, cache):
+                        gen += 1
+            return ('in', 'region:%s#%d@%d' % (o.id, len(getattr_regions(o)), gen), c if not symkey else term_of_lin(_key_lin(symkey, c)))
     if o.weak:
         return ('sym', st.fresh('weak:%s+%s' % (o.id, c if not symkey else '?')), 0, 255)
     d = o.default
@@ -112,6 +120,7 @@ def getattr_regions(o):
 
 
 def add_region(o, key, n, src):
+    o.epoch = ()
     pf = dict(o.ptr_fields) if isinstance(o.ptr_fields, dict) else {}
     pf['__regions__'] = tuple(pf.get('__regions__', ())) + ((key, n, src),)
     o.ptr_fields = pf
@@ -199,6 +208,8 @@ def fit_int(st, t, ct, from_unsigned_bytes=False):
 
 def kill_range(st, o, symkey, c, n):
     """Remove / split cells overlapping [c, c+n) (n int) before a strong store."""
+    if getattr_regions(o):
+        o.epoch = o.epoch + (((symkey, c), n),)
     dead = []
     cache = {}
     for (s2, c2), (w2, t2) in o.cells.items():
